@@ -2292,73 +2292,4 @@ theorem dumpJson_childrenFirst {m : Mgr} {roots : Roots} {f : JsonFile}
     ⟨.nil, by simp, by simp, by intro r hr; simp at hr⟩
   exact j.order
 
-/-- number of edges into node `u` -/
-def dmp_indeg (t : Tbl) (u : Nat) : Nat :=
-  t.succ.toList.foldl (fun acc x =>
-    acc + (if x.2.lo.natAbs = u then 1 else 0) + (if x.2.hi.natAbs = u then 1 else 0)) 0
-
-/-- reference counts are at least the in-degrees (part of the exact-count invariant of C06) -/
-def RefGeIndeg (m : Mgr) : Prop :=
-  ∀ (u : Nat) (n : Nd), m.tbl.node? u = some n → ∃ c, m.ref[u]? = some c ∧ dmp_indeg m.tbl u ≤ c
-
-/-- the receiving manager of a JSON load: invariant, named contiguous levels, exact unique
-table, counts covering the in-degrees, not inside a reordering context -/
-structure JsonTarget (m : Mgr) : Prop where
-  inv : Inv m
-  vars : DmpVarsOK m.tbl
-  pred : PredShape m
-  refs : RefGeIndeg m
-  ctx : m.ctx = false
-
-/-- C12 for `_copy.load_json` on a `dd.autoref.BDD` (NOT proved here; tied to the code by the
-correspondence check only): every well-formed JSON content with children before parents
-loads — for either `load_order`, with dynamic reordering enabled or not, for the iteration
-orders `sched` Python's sets happen to have — into roots of the same container shape that
-denote, by variable name, what the file says; the manager invariant is kept.
-`load_order=True` needs the same variable names on both sides (`reorder(order)` refuses
-otherwise). -/
-def json_load_statement : Prop :=
-  ∀ (f : JsonFile) (loadOrder : Bool) (tgt : Mgr), PickleWF f.toPickle → ChildrenFirst f.nodes →
-    f.roots ≠ .none → RootsResolvable f.toPickle → JsonTarget tgt →
-    (loadOrder = true → ∀ v : String, tgt.tbl.vars.contains v = true → (f.levelOfVar.lookup v).isSome) →
-    ∃ sched roots' m', loadJson f loadOrder { tgt with sched := sched } = (.ok roots', m') ∧ Inv m' ∧
-      RootsRel (fun u r => m'.tbl.Mem r ∧ ∀ α, denBy m'.tbl r α = evalJson f u α) f.roots roots'
-
-/-- C12, JSON round trip at full strength -/
-def json_roundtrip_statement : Prop :=
-  ∀ (src : Mgr) (roots : Roots) (f : JsonFile) (loadOrder : Bool) (tgt : Mgr),
-    Inv src → DmpVarsOK src.tbl → dumpJson src roots = .ok f → JsonTarget tgt →
-    (loadOrder = true → ∀ v : String, tgt.tbl.vars.contains v = true → src.tbl.vars.contains v = true) →
-    ∃ sched roots' m', loadJson f loadOrder { tgt with sched := sched } = (.ok roots', m') ∧ Inv m' ∧
-      LoadedAs src.tbl roots m'.tbl roots'
-
-/-- the JSON round trip follows from the (unproved) load half and the proved dump half -/
-theorem json_roundtrip_of_load (hL : json_load_statement) : json_roundtrip_statement := by
-  intro src roots f lo tgt hI hv hd ht hvars
-  obtain ⟨hwf, hroots, hev⟩ := dumpJson_spec hI hv hd
-  obtain ⟨nodes, hst, hr⟩ := dumpJson_stores hd
-  obtain ⟨hlov, _, hsome, _⟩ := dumpJson_parts hd
-  have hres : RootsResolvable f.toPickle :=
-    stores_resolvable hst (by show ∀ u ∈ f.roots.values, _; rw [hroots]; exact hr)
-  obtain ⟨sched, roots', m', e, I, R⟩ := hL f lo tgt hwf (dumpJson_childrenFirst hd)
-    (by rw [hroots]; exact hsome) hres ht (by
-      intro hlo v hv'
-      have := hvars hlo v hv'
-      rw [TreeMap.contains_eq_isSome_getElem?] at this
-      obtain ⟨l, hl⟩ := Option.isSome_iff_exists.mp this
-      have hm : (v, l) ∈ f.levelOfVar := by
-        rw [hlov]; exact TreeMap.mem_toList_iff_getElem?_eq_some.mpr hl
-      cases hlk : f.levelOfVar.lookup v with
-      | some x => rfl
-      | none =>
-        rw [List.lookup_eq_none_iff] at hlk
-        have := hlk (v, l) hm
-        simp at this)
-  refine ⟨sched, roots', m', e, I, ?_⟩
-  rw [hroots] at R
-  apply R.imp_mem
-  intro u hu r ⟨h1, h2⟩
-  exact ⟨h1, fun α => by rw [h2 α, hev α u hu]⟩
-
-
 end DD
